@@ -122,6 +122,22 @@ type replayInput struct {
 // buildInputs turns the model of the entry state into Go expressions.
 func (r *Report) buildInputs(ob *Obligation) ([]replayInput, map[string]string, string, bool) {
 	c := ob.fn
+	// first look for a counterexample in which every loop is in its first
+	// iteration (then the entry state leads straight to the failure)
+	if len(c.firstIter) > 0 {
+		if ins, imps, out, ok := r.buildInputsWith(ob, c.firstIter); ok {
+			return ins, imps, out, true
+		}
+	}
+	return r.buildInputsWith(ob, nil)
+}
+
+func isReaderType(t types.Type) bool {
+	return types.TypeString(t, nil) == "io.Reader"
+}
+
+func (r *Report) buildInputsWith(ob *Obligation, base []string) ([]replayInput, map[string]string, string, bool) {
+	c := ob.fn
 	fn := c.fn
 	imports := map[string]string{}
 	qual := func(p *types.Package) string {
@@ -133,6 +149,7 @@ func (r *Report) buildInputs(ob *Obligation) ([]replayInput, map[string]string, 
 	}
 	// pass 1: scalars
 	var terms []string
+	hasReader := false
 	for _, p := range fn.Params {
 		v := c.vals[p]
 		switch v := v.(type) {
@@ -144,13 +161,22 @@ func (r *Report) buildInputs(ob *Obligation) ([]replayInput, map[string]string, 
 			terms = append(terms, v.Len)
 		case VSlice:
 			terms = append(terms, v.Len, v.Cap, v.Base, v.Off)
-		case VStruct:
-			if len(flatten(v)) == 0 {
-				continue
+		case VIface:
+			if !isReaderType(p.Type()) {
+				return nil, nil, "", false
 			}
-			return nil, nil, "", false
+			hasReader = true
+		case VStruct:
+			continue // struct parameters are replayed as their zero value
 		default:
 			return nil, nil, "", false
+		}
+	}
+	var events []rdEvent
+	if hasReader {
+		for _, ev := range c.rdEvents {
+			events = append(events, ev)
+			terms = append(terms, ev.reach, ev.n, ev.errTyp, ev.errPay, ev.pos)
 		}
 	}
 	// prefer small inputs: bound the lengths first
@@ -163,17 +189,19 @@ func (r *Report) buildInputs(ob *Obligation) ([]replayInput, map[string]string, 
 			lens = append(lens, v.Cap)
 		}
 	}
+	for _, ev := range events {
+		lens = append(lens, ev.n)
+	}
 	var vals map[string]string
 	var out1 string
-	var bound []string
 	for _, lim := range []int{6, 24, 128, 0} {
-		bound = nil
+		bound := append([]string{}, base...)
 		if lim > 0 {
+			if len(lens) == 0 {
+				continue
+			}
 			for _, l := range lens {
 				bound = append(bound, le(l, fmt.Sprint(lim)))
-			}
-			if len(bound) == 0 {
-				continue
 			}
 		}
 		vals, out1 = r.getValues(ob, terms, bound...)
@@ -211,11 +239,28 @@ func (r *Report) buildInputs(ob *Obligation) ([]replayInput, map[string]string, 
 			}
 		}
 	}
+	for _, ev := range events {
+		if vals[ev.reach] != "true" {
+			continue
+		}
+		n, _ := strconv.Atoi(vals[ev.n])
+		if n > maxLen {
+			return nil, nil, "", false
+		}
+		for k := 0; k < n; k++ {
+			cterms = append(cterms, sel(app("rdS", ev.id), plus(ev.pos, fmt.Sprint(k))))
+		}
+	}
 	// pin the scalars found in pass 1 so that both passes describe one model
-	var pin []string
+	pin := append([]string{}, base...)
 	for _, t := range terms {
 		v := vals[t]
-		if v == "true" || v == "false" {
+		if v == "true" {
+			pin = append(pin, t)
+			continue
+		}
+		if v == "false" {
+			pin = append(pin, not(t))
 			continue
 		}
 		if strings.HasPrefix(v, "-") {
@@ -262,6 +307,34 @@ func (r *Report) buildInputs(ob *Obligation) ([]replayInput, map[string]string, 
 			in.Go = fmt.Sprintf("append(make([]byte, 0, %d), []byte{%s}...)", cp, strings.Join(elems, ","))
 		case VStruct:
 			in.Go = ts + "{}"
+		case VIface:
+			// scripted reader from the modelled Read calls on the model's path
+			imports["io"] = "io"
+			imports["errors"] = "errors"
+			eof, _ := c.eng.namedConst(c, "io.EOF")
+			ueof, _ := c.eng.namedConst(c, "io.ErrUnexpectedEOF")
+			var steps []string
+			for _, ev := range events {
+				if vals[ev.reach] != "true" {
+					continue
+				}
+				n, _ := strconv.Atoi(vals[ev.n])
+				var elems []string
+				for k := 0; k < n; k++ {
+					elems = append(elems, vals[sel(app("rdS", ev.id), plus(ev.pos, fmt.Sprint(k)))])
+				}
+				errGo := "errors.New(\"verif: scripted reader error\")"
+				switch {
+				case vals[ev.errTyp] == "0":
+					errGo = "nil"
+				case eof != nil && vals[ev.errTyp] == eof.(VIface).Typ:
+					errGo = "io.EOF"
+				case ueof != nil && vals[ev.errTyp] == ueof.(VIface).Typ:
+					errGo = "io.ErrUnexpectedEOF"
+				}
+				steps = append(steps, fmt.Sprintf("{data: []byte{%s}, err: %s}", strings.Join(elems, ","), errGo))
+			}
+			in.Go = fmt.Sprintf("io.Reader(&verifScriptReader{steps: []verifStep{%s}})", strings.Join(steps, ", "))
 		}
 		ins = append(ins, in)
 	}
@@ -274,10 +347,19 @@ func (r *Report) replay(prop string, ob *Obligation) replayResult {
 		out = out[:4000]
 	}
 	extra := map[string]any{"text": ob.Text, "pos": ob.Pos.String(), "function": ob.Func, "solver": ob.Res.solver, "status": ob.Res.status}
-	if r.o.noReplay || ob.Res.status != "sat" {
+	if r.o.noReplay {
 		return replayResult{path: r.writeReplay(prop, ob.ID, extra, out)}
 	}
-	ins, imports, modelOut, ok := r.buildInputs(ob)
+	var ins []replayInput
+	var imports map[string]string
+	var modelOut string
+	ok := false
+	if ob.Res.status == "sat" {
+		ins, imports, modelOut, ok = r.buildInputs(ob)
+	} else if len(ob.fn.firstIter) > 0 {
+		// no model for the general query: look for one in which every loop is in its first iteration
+		ins, imports, modelOut, ok = r.buildInputsWith(ob, ob.fn.firstIter)
+	}
 	if !ok {
 		extra["replay_note"] = "model could not be turned into concrete arguments"
 		return replayResult{path: r.writeReplay(prop, ob.ID, extra, out)}
@@ -303,6 +385,17 @@ func (r *Report) replayTest(ob *Obligation, ins []replayInput, imports map[strin
 		}
 	}
 	b.WriteString(")\n\n")
+	for p, n := range imports {
+		if p != "fmt" && p != "testing" {
+			// keep every import used
+			switch n {
+			case "io":
+				b.WriteString("var _ = io.EOF\n")
+			case "errors":
+				b.WriteString("var _ = errors.New\n")
+			}
+		}
+	}
 	b.WriteString("func TestVerifReplay(t *testing.T) {\n")
 	b.WriteString("\tdefer func() {\n\t\tif r := recover(); r != nil {\n\t\t\tfmt.Printf(\"REPLAY-FAIL panic: %v\\n\", r)\n\t\t}\n\t}()\n")
 	var names []string
